@@ -278,6 +278,9 @@ def mode_targets(m, scope):
         return [m]
     if scope == 'bn':
         return [x for x in m.modules() if isinstance(x, (nn.modules.batchnorm._BatchNorm, nn.modules.dropout._DropoutNd))]
+    if scope == 'seed':
+        # the inner (traced) model is switched directly, not through the wrapper's own train() / eval()
+        return [m.seed] if hasattr(m, 'seed') else [m]
     if scope.startswith('leaf:'):
         ll = leaf_layers(m)
         return [ll[int(scope[5:]) % len(ll)]] if ll else []
